@@ -14,7 +14,7 @@
 (* property allows and what the code as modelled is predicted to do.       *)
 (***************************************************************************)
 EXTENDS ListWriter, TLC, Json
-CONSTANTS MaxLen, FullLen, MaxLists
+CONSTANTS MaxLen, FullLen, MidLen, MaxLists
 VARIABLE c
 
 U64M1 == Ones(8)
@@ -26,18 +26,23 @@ Val(asz, s) ==
       [] s = "P1" -> Add(M, N8(1)) [] s = "U1" -> U64M1
 
 DataAt(n) == <<80 + n>>
-Alpha(asz, fam, n, full) ==
+Alpha(asz, fam, n, lvl) ==
     LET V(x) == Val(asz, x)
         d == IF fam = "loc" THEN DataAt(n) ELSE <<>>
+        full == lvl = "full"
+        mid  == lvl = "mid"
         B == IF full THEN {"0", "4096", "M", "P1"} ELSE {"0", "4096"}
         OP == IF full THEN {<<"0", "0">>, <<"0", "16">>, <<"16", "16">>, <<"16", "32">>, <<"M", "32">>, <<"32", "M">>,
                             <<"16", "P1">>, <<"32", "16">>, <<"U1", "16">>}
+              ELSE IF mid THEN {<<"16", "32">>, <<"16", "16">>, <<"M", "32">>, <<"0", "16">>, <<"16", "P1">>}
               ELSE {<<"16", "32">>, <<"16", "16">>, <<"M", "32">>}
         SE == IF full THEN {<<"0", "0">>, <<"4096", "4112">>, <<"4096", "4096">>, <<"M", "16">>, <<"16", "M">>, <<"T1", "M">>,
                             <<"0", "16">>, <<"T2", "T1">>}
+              ELSE IF mid THEN {<<"4096", "4112">>, <<"M", "16">>, <<"0", "0">>, <<"T1", "M">>}
               ELSE {<<"4096", "4112">>, <<"M", "16">>}
         SL == IF full THEN {<<"4096", "0">>, <<"4096", "16">>, <<"M", "1">>, <<"T2", "1">>, <<"0", "16">>, <<"T1", "2">>, <<"0", "0">>,
                             <<"16", "U1">>}
+              ELSE IF mid THEN {<<"4096", "16">>, <<"4096", "0">>, <<"M", "1">>}
               ELSE {<<"4096", "16">>}
     IN {Ent("base", V(a), Z8, <<>>) : a \in B}
        \cup {Ent("opair", V(x[1]), V(x[2]), d) : x \in OP}
@@ -45,19 +50,21 @@ Alpha(asz, fam, n, full) ==
        \cup {Ent("slen", V(x[1]), V(x[2]), d) : x \in SL}
        \cup (IF fam = "loc" THEN {Ent("defloc", Z8, Z8, d)} ELSE {})
        \cup (IF fam = "loc" /\ full THEN {Ent("se", V("4096"), V("4112"), <<>>), Ent("opair", V("16"), V("32"), <<145, 127>>)} ELSE {})
+(* alphabet level for a list that is to reach length m *)
+Lvl(m) == IF m <= FullLen THEN "full" ELSE IF m <= MidLen THEN "mid" ELSE "core"
 
 (* pool for units with several lists *)
 Pool(asz) ==
     LET V(x) == Val(asz, x) IN
     << [fam |-> "rng", L |-> <<Ent("se", V("4096"), V("4112"), <<>>)>>],
        [fam |-> "rng", L |-> <<Ent("base", V("4096"), Z8, <<>>), Ent("opair", V("16"), V("32"), <<>>)>>],
-       [fam |-> "rng", L |-> <<Ent("opair", V("16"), V("32"), <<>>)>>],
        [fam |-> "rng", L |-> <<Ent("se", V("0"), V("0"), <<>>)>>],
        [fam |-> "rng", L |-> <<>>],
        [fam |-> "loc", L |-> <<Ent("se", V("4096"), V("4112"), <<81>>)>>],
        [fam |-> "loc", L |-> <<Ent("se", V("4096"), V("4112"), <<82>>)>>],
        [fam |-> "loc", L |-> <<Ent("base", V("4096"), Z8, <<>>), Ent("opair", V("16"), V("32"), <<83, 84>>)>>],
        [fam |-> "loc", L |-> <<Ent("defloc", Z8, Z8, <<85>>)>>] >>
+(* (an empty range list, an invalid one, a based one, a plain one; location lists that differ only in the expression) *)
 
 Lps == {"none", "zero", "nz", "tomb"}
 LpOf(asz, s) == CASE s = "none" -> [some |-> FALSE, v |-> Z8] [] s = "zero" -> [some |-> TRUE, v |-> Z8]
@@ -75,8 +82,8 @@ Next ==
               n == Len(l.L) IN
           /\ n < MaxLen
           /\ (c.lp = "tomb" => n < 1)
-          /\ \E e \in Alpha(c.asz, l.fam, n + 1, n + 1 <= FullLen) :
-               /\ (n + 1 > FullLen => \A i \in 1..n : l.L[i] \in Alpha(c.asz, l.fam, i, FALSE))
+          /\ \E e \in Alpha(c.asz, l.fam, n + 1, Lvl(n + 1)) :
+               /\ \A i \in 1..n : l.L[i] \in Alpha(c.asz, l.fam, i, Lvl(n + 1))
                /\ c' = [c EXCEPT !.ls = <<[fam |-> l.fam, L |-> Append(l.L, e)]>>]
     \/ /\ c.stage = 2
        /\ Len(c.ls) < MaxLists
@@ -132,7 +139,7 @@ Inv ==
                                                  IF isr THEN w.roffs[bd.ids[i]] ELSE w.loffs[bd.ids[i]], e, lp, c.ls[i].fam) IN
                               IF rb.open THEN rb.items ELSE <<[t |-> "err", err |-> "UnexpectedEof"]>>]]
         p32 == PredOf(32)
-        p64 == PredOf(64)
+        p64 == IF c.vc <= 4 THEN [p32 EXCEPT !.fmt = 64] ELSE PredOf(64)    \* the pair format does not depend on the offset size
         faithful(p) == p.ok /\ \A i \in DOMAIN c.ls : p.back[i] = mean[i]
         predOk(p) == IF rej THEN ~p.ok ELSE faithful(p)
     IN
